@@ -156,8 +156,7 @@ impl Primitive {
     { unimplemented!() }
 }
 
-/// the bytes of an ASCII string literal
-pub open spec fn ascii(s: Seq<char>) -> Seq<u8> { Seq::new(s.len(), |i: int| s[i] as u8) }
+//@@ INCLUDE parser_obj/spec/r00_ascii.rs
 /// R7: a byte-string literal `b"lit"` read through `str::as_bytes` (Verus knows the length of `b".."` but not its bytes)
 #[verifier::external_body]
 pub fn blit(s: &'static str) -> (r: &'static [u8]) ensures r@ == ascii(s@) { s.as_bytes() }
@@ -188,178 +187,7 @@ pub fn hoist_decrypt_into(ctx: &Context, string: &mut IBytes) -> (r: Result<IByt
     ensures match r { Ok(s) => ctx_decrypt(ctxv(Some(ctx)), old(string)@) == Some(s@), Err(_) => ctx_decrypt(ctxv(Some(ctx)), old(string)@) is None }
 { unimplemented!() /* Ok(ctx.decrypt(string)?.into()) */ }
 
-// =====================================================================================================
-// ISO 32000-1 7.2: tokens (same functions as unit `lexer`; the deviations repaired in /repo are gone)
-// =====================================================================================================
-pub open spec fn is_ws(b: u8) -> bool { b == 0 || b == 9 || b == 10 || b == 12 || b == 13 || b == 32 }
-pub open spec fn is_delim(b: u8) -> bool { b == 40 || b == 41 || b == 60 || b == 62 || b == 91 || b == 93 || b == 123 || b == 125 || b == 47 || b == 37 }
-pub open spec fn is_reg(b: u8) -> bool { !is_ws(b) && !is_delim(b) }
-pub open spec fn is_eol(b: u8) -> bool { b == 10 || b == 13 }
-pub open spec fn ws_end(buf: Seq<u8>, p: int) -> int decreases buf.len() - p {
-    if 0 <= p < buf.len() && is_ws(buf[p]) { ws_end(buf, p + 1) } else { p }
-}
-pub open spec fn reg_end(buf: Seq<u8>, p: int) -> int decreases buf.len() - p {
-    if 0 <= p < buf.len() && is_reg(buf[p]) { reg_end(buf, p + 1) } else { p }
-}
-pub open spec fn eol_after(buf: Seq<u8>, p: int) -> Option<int> decreases buf.len() - p {
-    if p < 0 || p >= buf.len() { None } else if is_eol(buf[p]) { Some(p + 1) } else { eol_after(buf, p + 1) }
-}
-pub open spec fn token_start(buf: Seq<u8>, p: int) -> Option<int> decreases buf.len() - p {
-    let q = ws_end(buf, p);
-    if p < 0 || q < p || q >= buf.len() { None }
-    else if buf[q] == 37 {
-        match eol_after(buf, q + 1) {
-            Some(e) => if p < e <= buf.len() { token_start(buf, e) } else { None },
-            None => None,
-        }
-    } else { Some(q) }
-}
-pub open spec fn token_end(buf: Seq<u8>, s: int) -> int {
-    if is_delim(buf[s]) {
-        if buf[s] == 47 { reg_end(buf, s + 1) }
-        else if s + 1 < buf.len() && ((buf[s] == 60 && buf[s+1] == 60) || (buf[s] == 62 && buf[s+1] == 62)) { s + 2 }
-        else { s + 1 }
-    } else { reg_end(buf, s) }
-}
-// 7.3.8.1 (unit `lexer`)
-pub open spec fn stream_data_start(buf: Seq<u8>, k: int) -> Option<int> {
-    if k + 6 < buf.len() && buf[k + 6] == 10 { Some(k + 7) }
-    else if k + 7 < buf.len() && buf[k + 6] == 13 && buf[k + 7] == 10 { Some(k + 8) }
-    else { None }
-}
-pub open spec fn stream_kw_pos(buf: Seq<u8>, p: int) -> Option<int> {
-    if DEV_STREAM_KEYWORD_COMMENT_NOT_SKIPPED() { let q = ws_end(buf, p); if p <= q < buf.len() { Some(q) } else { None } }
-    else { match tok(buf, p) { Some(t) => Some(t.0), None => None } }
-}
-// 7.3.3 numbers
-pub open spec fn digit(b: u8) -> bool { 48 <= b <= 57 }
-pub open spec fn all_digits(s: Seq<u8>) -> bool { forall|i: int| 0 <= i < s.len() ==> digit(#[trigger] s[i]) }
-pub open spec fn sign_len(s: Seq<u8>) -> int { if s.len() > 0 && (s[0] == 45 || s[0] == 43) { 1 } else { 0 } }
-pub open spec fn is_int_lit(s: Seq<u8>) -> bool {
-    let k = sign_len(s);
-    s.len() > k && all_digits(s.subrange(k, s.len() as int))
-}
-pub open spec fn is_ureal(t: Seq<u8>) -> bool {
-    all_digits(t) && t.len() > 0
-    || exists|i: int| 0 <= i < t.len() && #[trigger] t[i] == 46 && all_digits(t.subrange(0, i)) && all_digits(t.subrange(i + 1, t.len() as int))
-        && (t.len() > 1 || DEV_LONE_DOT_IS_REAL())
-}
-pub open spec fn is_real_lit(s: Seq<u8>) -> bool { is_ureal(s.subrange(sign_len(s), s.len() as int)) }
-/// the ISO-exact reading (no tolerance): what the value spec uses
-pub open spec fn is_real_iso(s: Seq<u8>) -> bool {
-    let t = s.subrange(sign_len(s), s.len() as int);
-    all_digits(t) && t.len() > 0
-    || exists|i: int| 0 <= i < t.len() && #[trigger] t[i] == 46 && all_digits(t.subrange(0, i)) && all_digits(t.subrange(i + 1, t.len() as int)) && t.len() > 1
-}
-
-/// the next token at or after p: (first byte, one past the last byte)
-pub open spec fn tok(buf: Seq<u8>, p: int) -> Option<(int, int)> {
-    match token_start(buf, p) { Some(s) => Some((s, token_end(buf, s))), None => None }
-}
-
-pub proof fn lemma_ws_end(buf: Seq<u8>, p: int)
-    requires 0 <= p <= buf.len()
-    ensures p <= ws_end(buf, p) <= buf.len()
-    decreases buf.len() - p
-{ if p < buf.len() && is_ws(buf[p]) { lemma_ws_end(buf, p + 1); } }
-pub proof fn lemma_reg_end(buf: Seq<u8>, p: int)
-    requires 0 <= p <= buf.len()
-    ensures p <= reg_end(buf, p) <= buf.len()
-    decreases buf.len() - p
-{ if p < buf.len() && is_reg(buf[p]) { lemma_reg_end(buf, p + 1); } }
-pub proof fn lemma_eol_bound(buf: Seq<u8>, p: int)
-    requires 0 <= p
-    ensures eol_after(buf, p) matches Some(e) ==> p < e <= buf.len()
-    decreases buf.len() - p
-{ if p < buf.len() && !is_eol(buf[p]) { lemma_eol_bound(buf, p + 1); } }
-/// a token starts at or after p, is not white-space, not the start of a comment, and is at least one byte long
-pub proof fn lemma_tok(buf: Seq<u8>, p: int)
-    requires 0 <= p <= buf.len()
-    ensures tok(buf, p) matches Some((s, t)) ==> p <= s < t <= buf.len() && !is_ws(buf[s]) && buf[s] != 37
-    decreases buf.len() - p
-{
-    lemma_ws_end(buf, p);
-    let q = ws_end(buf, p);
-    if q < buf.len() {
-        if buf[q] == 37 {
-            lemma_eol_bound(buf, q + 1);
-            match eol_after(buf, q + 1) { Some(e) => { if p < e <= buf.len() { lemma_tok(buf, e); } }, None => {} }
-        } else {
-            lemma_ws_stop(buf, p);
-            lemma_reg_end(buf, q + 1);
-            if !is_delim(buf[q]) { assert(is_reg(buf[q])); assert(reg_end(buf, q) == reg_end(buf, q + 1)); }
-        }
-    }
-}
-pub proof fn lemma_ws_stop(buf: Seq<u8>, p: int)
-    requires 0 <= p <= buf.len()
-    ensures ws_end(buf, p) < buf.len() ==> !is_ws(buf[ws_end(buf, p)])
-    decreases buf.len() - p
-{ if p < buf.len() && is_ws(buf[p]) { lemma_ws_stop(buf, p + 1); } }
-/// white-space only up to the end of the data: no token
-pub proof fn lemma_no_tok_after_ws(buf: Seq<u8>, p: int)
-    requires 0 <= p <= buf.len(), forall|i: int| p <= i < buf.len() ==> is_ws(buf[i])
-    ensures token_start(buf, p) is None
-    decreases buf.len() - p
-{
-    if p < buf.len() { lemma_no_tok_after_ws(buf, p + 1); assert(ws_end(buf, p) == ws_end(buf, p + 1)); lemma_ws_end(buf, p + 1); lemma_ws_stop(buf, p + 1); }
-}
-
-pub broadcast proof fn b_tok(buf: Seq<u8>, p: int)
-    requires 0 <= p <= buf.len()
-    ensures match #[trigger] tok(buf, p) { Some(t) => p <= t.0 < t.1 <= buf.len() && !is_ws(buf[t.0]) && buf[t.0] != 37, None => true }
-{ lemma_tok(buf, p); }
-pub broadcast proof fn b_ws_end(buf: Seq<u8>, p: int)
-    requires 0 <= p <= buf.len()
-    ensures p <= #[trigger] ws_end(buf, p) <= buf.len()
-{ lemma_ws_end(buf, p); }
-/// a real literal (7.3.3, with the tolerances of unit lexer) starts with a digit, a point or a sign
-pub broadcast proof fn b_real_first(s: Seq<u8>)
-    ensures #[trigger] is_real_lit(s) ==> s.len() > 0 && (digit(s[0]) || s[0] == 46 || s[0] == 45 || s[0] == 43)
-{
-    if is_real_lit(s) {
-        let k = sign_len(s);
-        let t = s.subrange(k, s.len() as int);
-        if k == 0 {
-            assert(t =~= s);
-            if all_digits(t) && t.len() > 0 { assert(digit(t[0])); }
-            else {
-                let i = choose|i: int| 0 <= i < t.len() && #[trigger] t[i] == 46 && all_digits(t.subrange(0, i)) && all_digits(t.subrange(i + 1, t.len() as int)) && (t.len() > 1 || DEV_LONE_DOT_IS_REAL());
-                if i > 0 { assert(digit(t.subrange(0, i)[0])); }
-            }
-        }
-    }
-}
-pub proof fn lemma_real_iso_is_lit(s: Seq<u8>)
-    ensures is_real_iso(s) ==> is_real_lit(s)
-{
-    let t = s.subrange(sign_len(s), s.len() as int);
-    if is_real_iso(s) && !(all_digits(t) && t.len() > 0) {
-        let i = choose|i: int| 0 <= i < t.len() && #[trigger] t[i] == 46 && all_digits(t.subrange(0, i)) && all_digits(t.subrange(i + 1, t.len() as int)) && t.len() > 1;
-        assert(t[i] == 46);
-    }
-}
-/// `starts_with(b"/")` says the first byte is a SOLIDUS
-pub proof fn lemma_starts_slash(w: Seq<u8>)
-    ensures (w.len() >= 1 && w.subrange(0, 1) == K_SLASH()) <==> (w.len() > 0 && w[0] == 47), K_SLASH().len() == 1
-{
-    reveal(K_SLASH);
-    if w.len() >= 1 {
-        if w.subrange(0, 1) == K_SLASH() { assert(w.subrange(0, 1)[0] == 47); }
-        if w[0] == 47 { assert(w.subrange(0, 1) =~= K_SLASH()); }
-    }
-}
-pub proof fn lemma_flag_bits(f: u16)
-    ensures (f & 513 != 0) <==> (f & 1 != 0 || f & 512 != 0), (1u16 | 512u16) == 513u16
-{
-    assert((f & 513 != 0) <==> (f & 1 != 0 || f & 512 != 0)) by (bit_vector);
-    assert((1u16 | 512u16) == 513u16) by (bit_vector);
-}
-pub proof fn lemma_nibbles(h: u8, l: u8)
-    ensures h < 16 && l < 16 ==> (l | h << 4) == (h * 16 + l) as u8
-{
-    assert(h < 16 && l < 16 ==> (l | h << 4) == (h * 16 + l) as u8) by (bit_vector);
-}
+//@@ INCLUDE parser_obj/spec/r01_tokens.rs
 
 // =====================================================================================================
 // contracts PROVED in unit `lexer`, restated as stubs (obligation ids in the comments)
@@ -418,63 +246,13 @@ impl<'a> Substr<'a> {
         ensures match r { Ok(v) => T::dec(self.slice@) == Some(v), Err(_) => T::dec(self.slice@) is None }
     { unimplemented!() }
 }
-/// value of a non-empty string of ASCII digits
-pub open spec fn dec_digits(s: Seq<u8>) -> Option<nat>
-    decreases s.len()
-{
-    if s.len() == 0 { None }
-    else if !(0x30 <= s.last() <= 0x39) { None }
-    else if s.len() == 1 { Some((s.last() - 0x30) as nat) }
-    else { match dec_digits(s.drop_last()) { None => None, Some(v) => Some(v * 10 + (s.last() - 0x30) as nat) } }
-}
-/// `str::parse::<uN>()`: optional '+', at least one digit
-pub open spec fn dec_unsigned(s: Seq<u8>) -> Option<int> {
-    let body = if s.len() > 0 && s[0] == 0x2b { s.subrange(1, s.len() as int) } else { s };
-    match dec_digits(body) { Some(v) => Some(v as int), None => None }
-}
-/// `str::parse::<iN>()`: optional '+' or '-', at least one digit
-pub open spec fn dec_signed(s: Seq<u8>) -> Option<int> {
-    if s.len() > 0 && s[0] == 0x2d { match dec_digits(s.subrange(1, s.len() as int)) { Some(v) => Some(-(v as int)), None => None } }
-    else { dec_unsigned(s) }
-}
-/// 7.3.3 + Annex C (Table C.1: the range of integers is an architectural limit of the reader, not part of the syntax): a token made of an
-/// optional sign and decimal digits denotes the number it spells -- an Integer if that number fits the implementation's integer type
-/// (i32), else the SAME number as a real (the literal; its value is f32_of(literal), as for every real).  It is never "not a number".
-pub open spec fn int_tok_val(w: Seq<u8>) -> Option<Val> {
-    match dec_signed(w) {
-        Some(v) => if i32::MIN <= v <= i32::MAX { Some(Val::Int(v)) } else { Some(Val::Real(w)) },
-        None => None,
-    }
-}
-/// an integer literal (7.3.3) is also a real literal in the ISO-exact reading (`[+-]?d+`)
-pub proof fn lemma_int_is_real_iso(s: Seq<u8>)
-    ensures is_int_lit(s) ==> is_real_iso(s)
-{
-    if is_int_lit(s) { let t = s.subrange(sign_len(s), s.len() as int); assert(all_digits(t) && t.len() > 0); }
-}
-/// the f32 that `str::parse::<f32>()` yields (uninterpreted; None = parse error)
-pub uninterp spec fn f32_of(s: Seq<u8>) -> Option<f32>;
+//@@ INCLUDE parser_obj/spec/r02_numbers.rs
 /// trusted (std): the grammar of `f32::from_str` contains the ISO 7.3.3 reals `[+-]?(d+ | d+.d* | .d+)`
 #[verifier::external_body]
 pub proof fn axiom_f32_accepts_iso_reals(s: Seq<u8>)
     ensures is_real_iso(s) ==> f32_of(s) is Some
 {}
-pub trait FromDec: Sized {
-    spec fn dec(s: Seq<u8>) -> Option<Self>;
-}
-impl FromDec for u64 {
-    open spec fn dec(s: Seq<u8>) -> Option<u64> {
-        match dec_unsigned(s) { Some(v) => if v <= u64::MAX { Some(v as u64) } else { None }, None => None }
-    }
-}
-impl FromDec for i32 {
-    open spec fn dec(s: Seq<u8>) -> Option<i32> {
-        match dec_signed(s) { Some(v) => if i32::MIN <= v <= i32::MAX { Some(v as i32) } else { None }, None => None }
-    }
-}
-impl FromDec for f32 {
-    open spec fn dec(s: Seq<u8>) -> Option<f32> { f32_of(s) }
-}
+//@@ INCLUDE parser_obj/spec/r03_fromdec.rs
 
 impl<'a> Lexer<'a> {
     pub open spec fn wf(&self) -> bool {
@@ -553,75 +331,7 @@ impl<'a> Lexer<'a> {
 //@@ Lexer::read_n
 }
 
-// =====================================================================================================
-// ISO 32000-1 7.3.4.2 / 7.3.4.3: string step functions (same functions as unit `strlex`, deviations repaired)
-// =====================================================================================================
-pub struct Step { pub eof: bool, pub trunc: bool, pub out: Option<u8>, pub pos: int, pub nested: int }
-pub open spec fn st_eof(pos: int, nested: int) -> Step { Step { eof: true, trunc: false, out: None, pos, nested } }
-pub open spec fn st_emit(b: u8, pos: int, nested: int) -> Step { Step { eof: false, trunc: false, out: Some(b), pos, nested } }
-pub open spec fn is_oct(c: u8) -> bool { 0x30 <= c <= 0x37 }
-pub open spec fn oct_len(buf: Seq<u8>, p: int) -> int {
-    if p < buf.len() && is_oct(buf[p]) {
-        if p + 1 < buf.len() && is_oct(buf[p + 1]) {
-            if p + 2 < buf.len() && is_oct(buf[p + 2]) { 3 } else { 2 }
-        } else { 1 }
-    } else { 0 }
-}
-pub open spec fn oct_val(buf: Seq<u8>, p: int, n: int) -> int decreases n {
-    if n <= 0 { 0 } else { oct_val(buf, p, n - 1) * 8 + (buf[p + n - 1] - 0x30) }
-}
-pub open spec fn lit_step(buf: Seq<u8>, pos: int, nested: int) -> Step
-    decreases buf.len() - pos
-{
-    if pos < 0 || pos >= buf.len() { st_eof(pos, nested) } else {
-    let c = buf[pos];
-    if c == 0x5C {
-        if pos + 1 >= buf.len() { st_eof(pos + 1, nested) } else {
-        let d = buf[pos + 1];
-        if d == 0x6E { st_emit(0x0A, pos + 2, nested) }
-        else if d == 0x72 { st_emit(0x0D, pos + 2, nested) }
-        else if d == 0x74 { st_emit(0x09, pos + 2, nested) }
-        else if d == 0x62 { st_emit(0x08, pos + 2, nested) }
-        else if d == 0x66 { st_emit(0x0C, pos + 2, nested) }
-        else if d == 0x28 { st_emit(0x28, pos + 2, nested) }
-        else if d == 0x29 { st_emit(0x29, pos + 2, nested) }
-        else if d == 0x5C { st_emit(0x5C, pos + 2, nested) }
-        else if d == 0x0A { lit_step(buf, pos + 2, nested) }
-        else if d == 0x0D { lit_step(buf, if pos + 2 < buf.len() && buf[pos + 2] == 0x0A { pos + 3 } else { pos + 2 }, nested) }
-        else if is_oct(d) {
-            let n = oct_len(buf, pos + 1);
-            Step { eof: false, trunc: n < 3 && pos + 1 + n >= buf.len(),
-                   out: Some((oct_val(buf, pos + 1, n) % 256) as u8), pos: pos + 1 + n, nested } }
-        else { st_emit(d, pos + 2, nested) }
-        } }
-    else if c == 0x28 { st_emit(0x28, pos + 1, nested + 1) }
-    else if c == 0x29 {
-        if nested - 1 < 0 { Step { eof: false, trunc: false, out: None, pos: pos + 1, nested: nested - 1 } }
-        else { st_emit(0x29, pos + 1, nested - 1) } }
-    else if c == 0x0D { st_emit(0x0A, if pos + 1 < buf.len() && buf[pos + 1] == 0x0A { pos + 2 } else { pos + 1 }, nested) }
-    else { st_emit(c, pos + 1, nested) } }
-}
-pub open spec fn depth_fits(n: int) -> bool { n <= i32::MAX }
-pub open spec fn lex_post(st: Step, r: Result<Option<u8>>, fpos: int, fnested: int) -> bool {
-    if st.eof || !depth_fits(st.nested) { r is Err }
-    else if st.trunc { r is Err || (r == Ok::<Option<u8>, PdfError>(st.out) && fpos == st.pos && fnested == st.nested) }
-    else { r == Ok::<Option<u8>, PdfError>(st.out) && fpos == st.pos && fnested == st.nested }
-}
-pub open spec fn as_lexeme(r: Option<Result<u8>>) -> Result<Option<u8>> {
-    match r { None => Ok(None), Some(Ok(b)) => Ok(Some(b)), Some(Err(e)) => Err(e) }
-}
-/// every step that is not `eof` consumes at least one byte and stays inside the buffer
-pub proof fn lemma_lit_progress(buf: Seq<u8>, pos: int, nested: int)
-    requires 0 <= pos
-    ensures !lit_step(buf, pos, nested).eof ==> pos < lit_step(buf, pos, nested).pos <= buf.len()
-    decreases buf.len() - pos
-{
-    if pos < buf.len() && buf[pos] == 0x5C && pos + 1 < buf.len() {
-        let d = buf[pos + 1];
-        if d == 0x0A { lemma_lit_progress(buf, pos + 2, nested); }
-        else if d == 0x0D { lemma_lit_progress(buf, if pos + 2 < buf.len() && buf[pos + 2] == 0x0A { pos + 3 } else { pos + 2 }, nested); }
-    }
-}
+//@@ INCLUDE parser_obj/spec/r04_lit_step.rs
 impl<'a> StringLexer<'a> {
     pub open spec fn wf(&self) -> bool { self.pos <= self.buf@.len() }
     /// proved in units/strlex: StringLexer::new/new_state
@@ -640,44 +350,7 @@ impl<'a> StringLexer<'a> {
             lex_post(lit_step(old(self).buf@, old(self).pos as int, old(self).nested as int), as_lexeme(r), final(self).pos as int, final(self).nested as int),
     { unimplemented!() }
 }
-pub open spec fn hex_ws(b: u8) -> bool { b == 0x20 || b == 0x09 || b == 0x0A || b == 0x0D || b == 0x0C || b == 0x00 }
-pub open spec fn hexval(c: u8) -> Option<u8> {
-    if 0x30 <= c <= 0x39 { Some((c - 0x30) as u8) } else if 0x41 <= c <= 0x46 { Some((c - 0x41 + 10) as u8) }
-    else if 0x61 <= c <= 0x66 { Some((c - 0x61 + 10) as u8) } else { None }
-}
-pub open spec fn skip(buf: Seq<u8>, p: int) -> int decreases buf.len() - p {
-    if 0 <= p < buf.len() && hex_ws(buf[p]) { skip(buf, p + 1) } else { p }
-}
-pub struct HStep { pub eof: bool, pub bad: bool, pub out: Option<u8>, pub pos: int }
-pub open spec fn hex_step(buf: Seq<u8>, pos: int) -> HStep {
-    let p1 = skip(buf, pos);
-    if p1 >= buf.len() { HStep { eof: true, bad: false, out: None, pos: p1 } } else {
-    let c1 = buf[p1];
-    if c1 == 0x3E { HStep { eof: false, bad: false, out: None, pos: p1 + 1 } }
-    else { match hexval(c1) {
-        None => HStep { eof: false, bad: true, out: None, pos: p1 + 1 },
-        Some(h) => {
-            let p2 = skip(buf, p1 + 1);
-            if p2 >= buf.len() { HStep { eof: true, bad: false, out: None, pos: p2 } } else {
-            let c2 = buf[p2];
-            if c2 == 0x3E { HStep { eof: false, bad: false, out: Some((h * 16) as u8), pos: p2 } }
-            else { match hexval(c2) {
-                None => HStep { eof: false, bad: true, out: None, pos: p2 + 1 },
-                Some(l) => HStep { eof: false, bad: false, out: Some((h * 16 + l) as u8), pos: p2 + 1 } } } } } } } }
-}
-pub proof fn lemma_skip_bounds(buf: Seq<u8>, p: int)
-    requires 0 <= p <= buf.len()
-    ensures p <= skip(buf, p) <= buf.len()
-    decreases buf.len() - p
-{ if p < buf.len() && hex_ws(buf[p]) { lemma_skip_bounds(buf, p + 1); } }
-pub proof fn lemma_hex_progress(buf: Seq<u8>, pos: int)
-    requires 0 <= pos <= buf.len()
-    ensures !hex_step(buf, pos).eof ==> pos < hex_step(buf, pos).pos <= buf.len()
-{
-    lemma_skip_bounds(buf, pos);
-    let p1 = skip(buf, pos);
-    if p1 < buf.len() { lemma_skip_bounds(buf, p1 + 1); }
-}
+//@@ INCLUDE parser_obj/spec/r05_hex_step.rs
 impl<'a> HexStringLexer<'a> {
     pub open spec fn wf(&self) -> bool { self.pos <= self.buf@.len() }
     /// proved in units/strlex: HexStringLexer::new/new_state
@@ -718,21 +391,7 @@ fn hoist_get2(rest: &[u8], a: usize, b: usize) -> (r: Option<[u8; 2]>)
     ensures b <= rest@.len() ==> (r matches Some(x) && x[0] == rest@[a as int] && x[1] == rest@[a + 1]), b > rest@.len() ==> r is None
 { use std::convert::TryInto; rest.get(a .. b).map(|s| s.try_into().unwrap()) }
 
-// =====================================================================================================
-// ISO 32000-1 7.3: objects.  `Val` is the denoted value; `rep(p, v)`: the Primitive p represents v.
-// =====================================================================================================
-pub enum Val {
-    Null,
-    Bool(bool),
-    Int(int),
-    Real(Seq<u8>),                                   // the literal; its value is f32_of(literal)
-    Str(Seq<u8>),
-    Name(Seq<u8>),
-    Arr(Seq<Val>),
-    Dict(Map<Seq<u8>, Val>),
-    Ref(int, int),                                   // object number, generation number
-    Stream(Map<Seq<u8>, Val>, PlainRef, int, int),   // dictionary, id of the indirect object, file range of the data
-}
+//@@ INCLUDE parser_obj/spec/r06_val.rs
 pub open spec fn rep(p: Primitive, v: Val) -> bool decreases v {
     match v {
         Val::Null => p is Null,
@@ -762,20 +421,7 @@ pub proof fn lemma_rep_map_insert(dm: Map<Seq<u8>, Primitive>, m: Map<Seq<u8>, V
         }
     }
 }
-pub open spec fn arr_prepend(a: Seq<Val>, r: Option<(Seq<Val>, int)>) -> Option<(Seq<Val>, int)> {
-    match r { Some(x) => Some((a + x.0, x.1)), None => None }
-}
-pub proof fn lemma_arr_step(a: Seq<Val>, v: Val, r: Option<(Seq<Val>, int)>)
-    ensures arr_prepend(a, arr_prepend(seq![v], r)) == arr_prepend(a.push(v), r)
-{
-    match r { Some(x) => { assert(a + (seq![v] + x.0) =~= a.push(v) + x.0); }, None => {} }
-}
-pub proof fn lemma_arr_ends(a: Seq<Val>, e: int, r: Option<(Seq<Val>, int)>)
-    ensures arr_prepend(a, Some((Seq::<Val>::empty(), e))) == Some((a, e)), arr_prepend(Seq::<Val>::empty(), r) == r
-{
-    assert(a + Seq::<Val>::empty() =~= a);
-    match r { Some(x) => { assert(Seq::<Val>::empty() + x.0 =~= x.0); }, None => {} }
-}
+//@@ INCLUDE parser_obj/spec/r07_arr_prepend.rs
 pub proof fn lemma_rep_seq_push(a: Seq<Primitive>, s: Seq<Val>, p: Primitive, v: Val)
     ensures rep_seq(a, s) && rep(p, v) ==> rep_seq(a.push(p), s.push(v))
 {
@@ -785,450 +431,20 @@ pub proof fn lemma_rep_seq_push(a: Seq<Primitive>, s: Seq<Val>, p: Primitive, v:
         }
     }
 }
-pub proof fn lemma_str_step(a: Seq<u8>, c: u8, r: Option<(Seq<u8>, int)>)
-    ensures str_prepend(a, str_prepend(seq![c], r)) == str_prepend(a.push(c), r)
-{
-    match r { Some(x) => { assert(a + (seq![c] + x.0) =~= a.push(c) + x.0); }, None => {} }
-}
-pub proof fn lemma_str_ends(a: Seq<u8>, e: int, r: Option<(Seq<u8>, int)>)
-    ensures str_prepend(a, Some((Seq::<u8>::empty(), e))) == Some((a, e)), str_prepend(Seq::<u8>::empty(), r) == r
-{
-    assert(a + Seq::<u8>::empty() =~= a);
-    match r { Some(x) => { assert(Seq::<u8>::empty() + x.0 =~= x.0); }, None => {} }
-}
+//@@ INCLUDE parser_obj/spec/r08_str_lemmas.rs
 pub open spec fn rep_seq(a: Seq<Primitive>, s: Seq<Val>) -> bool {
     a.len() == s.len() && forall|i: int| 0 <= i < s.len() ==> rep(a[i], #[trigger] s[i])
 }
 
-/// the (ghost) view of the context of an indirect object: decoder and id
-pub struct CtxV { pub dec: Option<Decoder>, pub id: PlainRef }
-pub open spec fn ctxv(c: Option<&Context>) -> Option<CtxV> {
-    match c { Some(x) => Some(CtxV { dec: match x.decoder { Some(d) => Some(*d), None => None }, id: x.id }), None => None }
-}
-/// C06 placement: a string is decrypted once, with the key of the enclosing indirect object, only when there is a decoder
-pub open spec fn ctx_decrypt(c: Option<CtxV>, s: Seq<u8>) -> Option<Seq<u8>> {
-    match c { None => Some(s), Some(x) => match x.dec { None => Some(s), Some(d) => decrypt_spec(d, x.id, s) } }
-}
-/// what the parser works on: the data, the file offset of its first byte, the context
-pub struct Env { pub buf: Seq<u8>, pub base: int, pub ctx: Option<CtxV> }
+//@@ INCLUDE parser_obj/spec/r09_ctx_env.rs
 
-// keywords and delimiters
-#[verifier::opaque] pub open spec fn K_LTLT() -> Seq<u8> { seq![60u8, 60u8] }
-#[verifier::opaque] pub open spec fn K_GTGT() -> Seq<u8> { seq![62u8, 62u8] }
-#[verifier::opaque] pub open spec fn K_LBRACK() -> Seq<u8> { seq![91u8] }
-#[verifier::opaque] pub open spec fn K_RBRACK() -> Seq<u8> { seq![93u8] }
-#[verifier::opaque] pub open spec fn K_LPAREN() -> Seq<u8> { seq![40u8] }
-#[verifier::opaque] pub open spec fn K_LT() -> Seq<u8> { seq![60u8] }
-#[verifier::opaque] pub open spec fn K_SLASH() -> Seq<u8> { seq![47u8] }
-#[verifier::opaque] pub open spec fn K_R() -> Seq<u8> { seq![82u8] }
-#[verifier::opaque] pub open spec fn K_TRUE() -> Seq<u8> { seq![116u8, 114u8, 117u8, 101u8] }
-#[verifier::opaque] pub open spec fn K_FALSE() -> Seq<u8> { seq![102u8, 97u8, 108u8, 115u8, 101u8] }
-#[verifier::opaque] pub open spec fn K_NULL() -> Seq<u8> { seq![110u8, 117u8, 108u8, 108u8] }
-#[verifier::opaque] pub open spec fn K_STREAM() -> Seq<u8> { seq![115u8, 116u8, 114u8, 101u8, 97u8, 109u8] }
-#[verifier::opaque] pub open spec fn K_ENDSTREAM() -> Seq<u8> { seq![101u8, 110u8, 100u8, 115u8, 116u8, 114u8, 101u8, 97u8, 109u8] }
-#[verifier::opaque] pub open spec fn K_OBJ() -> Seq<u8> { seq![111u8, 98u8, 106u8] }
-#[verifier::opaque] pub open spec fn K_ENDOBJ() -> Seq<u8> { seq![101u8, 110u8, 100u8, 111u8, 98u8, 106u8] }
-#[verifier::opaque] pub open spec fn K_LENGTH() -> Seq<u8> { seq![76u8, 101u8, 110u8, 103u8, 116u8, 104u8] }
-pub proof fn lemma_lits()
-    ensures ascii("<<"@) == K_LTLT(), ascii(">>"@) == K_GTGT(), ascii("["@) == K_LBRACK(), ascii("]"@) == K_RBRACK(),
-        ascii("("@) == K_LPAREN(), ascii("<"@) == K_LT(), ascii("/"@) == K_SLASH(), ascii("R"@) == K_R(),
-        ascii("true"@) == K_TRUE(), ascii("false"@) == K_FALSE(), ascii("null"@) == K_NULL(), ascii("stream"@) == K_STREAM(),
-        ascii("endstream"@) == K_ENDSTREAM(), ascii("obj"@) == K_OBJ(), ascii("endobj"@) == K_ENDOBJ(), ascii("Length"@) == K_LENGTH(),
-{
-    reveal(K_LTLT); reveal(K_GTGT); reveal(K_LBRACK); reveal(K_RBRACK); reveal(K_LPAREN); reveal(K_LT); reveal(K_SLASH); reveal(K_R);
-    reveal(K_TRUE); reveal(K_FALSE); reveal(K_NULL); reveal(K_STREAM); reveal(K_ENDSTREAM); reveal(K_OBJ); reveal(K_ENDOBJ); reveal(K_LENGTH);
-    reveal_strlit("<<"); reveal_strlit(">>"); reveal_strlit("["); reveal_strlit("]"); reveal_strlit("("); reveal_strlit("<");
-    reveal_strlit("/"); reveal_strlit("R"); reveal_strlit("true"); reveal_strlit("false"); reveal_strlit("null");
-    reveal_strlit("stream"); reveal_strlit("endstream"); reveal_strlit("obj"); reveal_strlit("endobj"); reveal_strlit("Length");
-    assert(ascii("<<"@) =~= K_LTLT()); assert(ascii(">>"@) =~= K_GTGT()); assert(ascii("["@) =~= K_LBRACK()); assert(ascii("]"@) =~= K_RBRACK());
-    assert(ascii("("@) =~= K_LPAREN()); assert(ascii("<"@) =~= K_LT()); assert(ascii("/"@) =~= K_SLASH()); assert(ascii("R"@) =~= K_R());
-    assert(ascii("true"@) =~= K_TRUE()); assert(ascii("false"@) =~= K_FALSE()); assert(ascii("null"@) =~= K_NULL());
-    assert(ascii("stream"@) =~= K_STREAM()); assert(ascii("endstream"@) =~= K_ENDSTREAM()); assert(ascii("obj"@) =~= K_OBJ());
-    assert(ascii("endobj"@) =~= K_ENDOBJ()); assert(ascii("Length"@) =~= K_LENGTH());
-}
-
-/// first bytes of the delimiters and keywords that open an object (none of them can start a number)
-pub proof fn lemma_kw_first()
-    ensures K_LBRACK().len() == 1 && K_LBRACK()[0] == 91, K_LPAREN().len() == 1 && K_LPAREN()[0] == 40, K_LT().len() == 1 && K_LT()[0] == 60,
-        K_TRUE().len() == 4 && K_TRUE()[0] == 116, K_FALSE().len() == 5 && K_FALSE()[0] == 102, K_NULL().len() == 4 && K_NULL()[0] == 110,
-        K_SLASH().len() == 1 && K_SLASH()[0] == 47, K_LTLT().len() == 2, K_GTGT().len() == 2, K_RBRACK().len() == 1, K_R().len() == 1,
-        K_STREAM().len() == 6, K_ENDSTREAM().len() == 9, K_OBJ().len() == 3, K_ENDOBJ().len() == 6,
-{
-    reveal(K_LBRACK); reveal(K_LPAREN); reveal(K_LT); reveal(K_TRUE); reveal(K_FALSE); reveal(K_NULL); reveal(K_SLASH);
-    reveal(K_LTLT); reveal(K_GTGT); reveal(K_RBRACK); reveal(K_R); reveal(K_STREAM); reveal(K_ENDSTREAM); reveal(K_OBJ); reveal(K_ENDOBJ);
-}
-// 7.3.5 names: "#" followed by two hexadecimal digits stands for the byte with that code
-#[verifier::opaque]
-pub open spec fn name_dec(s: Seq<u8>) -> Option<Seq<u8>> decreases s.len() {
-    if s.len() == 0 { Some(Seq::<u8>::empty()) }
-    else if s[0] == 35 {
-        if s.len() >= 3 && hexval(s[1]) is Some && hexval(s[2]) is Some {
-            match name_dec(s.subrange(3, s.len() as int)) {
-                Some(t) => Some(seq![(hexval(s[1])->0 * 16 + hexval(s[2])->0) as u8] + t), None => None }
-        } else { None }
-    } else {
-        match name_dec(s.subrange(1, s.len() as int)) { Some(t) => Some(seq![s[0]] + t), None => None }
-    }
-}
-pub open spec fn opt_prepend(a: Seq<u8>, r: Option<Seq<u8>>) -> Option<Seq<u8>> {
-    match r { Some(t) => Some(a + t), None => None }
-}
-/// a prefix without "#" is copied
-pub proof fn lemma_name_dec_prefix(s: Seq<u8>, k: int)
-    requires 0 <= k <= s.len(), forall|i: int| 0 <= i < k ==> s[i] != 35
-    ensures name_dec(s) == opt_prepend(s.subrange(0, k), name_dec(s.subrange(k, s.len() as int)))
-    decreases k
-{
-    reveal_with_fuel(name_dec, 2);
-    if k == 0 {
-        assert(s.subrange(0, s.len() as int) =~= s);
-        match name_dec(s) { Some(t) => { assert(s.subrange(0, 0) + t =~= t); }, None => {} }
-    } else {
-        let s1 = s.subrange(1, s.len() as int);
-        assert forall|i: int| 0 <= i < k - 1 implies s1[i] != 35 by { assert(s1[i] == s[i + 1]); }
-        lemma_name_dec_prefix(s1, k - 1);
-        assert(s1.subrange(k - 1, s1.len() as int) =~= s.subrange(k, s.len() as int));
-        match name_dec(s.subrange(k, s.len() as int)) {
-            Some(t) => { assert(seq![s[0]] + (s1.subrange(0, k - 1) + t) =~= s.subrange(0, k) + t); }, None => {} }
-    }
-}
-/// the first "#" at k, followed by two hexadecimal digits
-pub proof fn lemma_name_dec_escape(s: Seq<u8>, k: int)
-    ensures (0 <= k && k + 3 <= s.len() && (forall|i: int| 0 <= i < k ==> s[i] != 35) && s[k] == 35 && hexval(s[k + 1]) is Some && hexval(s[k + 2]) is Some)
-        ==> name_dec(s) == opt_prepend(s.subrange(0, k).push((hexval(s[k + 1]).unwrap() * 16 + hexval(s[k + 2]).unwrap()) as u8), name_dec(s.subrange(k + 3, s.len() as int))),
-        // "#" not followed by two hexadecimal digits: not a name
-        (0 <= k < s.len() && (forall|i: int| 0 <= i < k ==> s[i] != 35) && s[k] == 35 && !(k + 3 <= s.len() && hexval(s[k + 1]) is Some && hexval(s[k + 2]) is Some))
-        ==> name_dec(s) is None,
-{
-    if 0 <= k < s.len() && (forall|i: int| 0 <= i < k ==> s[i] != 35) && s[k] == 35 && !(k + 3 <= s.len() && hexval(s[k + 1]) is Some && hexval(s[k + 2]) is Some) {
-        reveal_with_fuel(name_dec, 2);
-        lemma_name_dec_prefix(s, k);
-        let u = s.subrange(k, s.len() as int);
-        assert(u[0] == 35);
-        if k + 3 <= s.len() { assert(u[1] == s[k + 1] && u[2] == s[k + 2]); }
-    }
-    if 0 <= k && k + 3 <= s.len() && (forall|i: int| 0 <= i < k ==> s[i] != 35) && s[k] == 35 && hexval(s[k + 1]) is Some && hexval(s[k + 2]) is Some {
-        reveal_with_fuel(name_dec, 2);
-        lemma_name_dec_prefix(s, k);
-        let u = s.subrange(k, s.len() as int);
-        assert(u.subrange(3, u.len() as int) =~= s.subrange(k + 3, s.len() as int));
-        let b = (hexval(s[k + 1]).unwrap() * 16 + hexval(s[k + 2]).unwrap()) as u8;
-        match name_dec(s.subrange(k + 3, s.len() as int)) {
-            Some(t) => { assert(s.subrange(0, k) + (seq![b] + t) =~= s.subrange(0, k).push(b) + t); }, None => {} }
-    }
-}
-/// no "#" at all: the name is its own spelling
-pub proof fn lemma_name_dec_plain(s: Seq<u8>)
-    ensures (forall|i: int| 0 <= i < s.len() ==> s[i] != 35) ==> name_dec(s) == Some(s)
-{
-    if forall|i: int| 0 <= i < s.len() ==> s[i] != 35 {
-        reveal_with_fuel(name_dec, 2);
-        lemma_name_dec_prefix(s, s.len() as int);
-        assert(s.subrange(0, s.len() as int) =~= s);
-        assert(s.subrange(s.len() as int, s.len() as int) =~= Seq::<u8>::empty());
-        assert(s + Seq::<u8>::empty() =~= s);
-    }
-}
-
-// 7.3.4.2 literal strings: the value is the sequence of lexemes up to the closing parenthesis
-// (`*_def` is the defining equation; the function itself is opaque and unfolded through `lemma_*_unfold` where needed)
-#[verifier::opaque]
-pub open spec fn lit_str(b: Seq<u8>, pos: int, nested: int) -> Option<(Seq<u8>, int)> decreases b.len() - pos {
-    let st = lit_step(b, pos, nested);
-    if st.eof || st.trunc || !depth_fits(st.nested) || st.pos <= pos || st.pos > b.len() { None }
-    else { match st.out {
-        None => Some((Seq::<u8>::empty(), st.pos)),
-        Some(c) => str_prepend(seq![c], lit_str(b, st.pos, st.nested)) } }
-}
-pub open spec fn lit_str_def(b: Seq<u8>, pos: int, nested: int) -> Option<(Seq<u8>, int)>
-{
-    let st = lit_step(b, pos, nested);
-    if st.eof || st.trunc || !depth_fits(st.nested) || st.pos <= pos || st.pos > b.len() { None }
-    else { match st.out {
-        None => Some((Seq::<u8>::empty(), st.pos)),
-        Some(c) => str_prepend(seq![c], lit_str(b, st.pos, st.nested)) } }
-}
-pub proof fn lemma_lit_unfold(b: Seq<u8>, pos: int, nested: int)
-    ensures lit_str(b, pos, nested) == lit_str_def(b, pos, nested)
-{ reveal_with_fuel(lit_str, 1); }
-// 7.3.4.3 hexadecimal strings
-#[verifier::opaque]
-pub open spec fn hex_str(b: Seq<u8>, pos: int) -> Option<(Seq<u8>, int)> decreases b.len() - pos {
-    let st = hex_step(b, pos);
-    if st.eof || st.bad || st.pos <= pos || st.pos > b.len() { None }
-    else { match st.out {
-        None => Some((Seq::<u8>::empty(), st.pos)),
-        Some(c) => str_prepend(seq![c], hex_str(b, st.pos)) } }
-}
-pub open spec fn hex_str_def(b: Seq<u8>, pos: int) -> Option<(Seq<u8>, int)>
-{
-    let st = hex_step(b, pos);
-    if st.eof || st.bad || st.pos <= pos || st.pos > b.len() { None }
-    else { match st.out {
-        None => Some((Seq::<u8>::empty(), st.pos)),
-        Some(c) => str_prepend(seq![c], hex_str(b, st.pos)) } }
-}
-pub proof fn lemma_hex_unfold(b: Seq<u8>, pos: int)
-    ensures hex_str(b, pos) == hex_str_def(b, pos)
-{ reveal_with_fuel(hex_str, 1); }
-pub open spec fn str_prepend(a: Seq<u8>, r: Option<(Seq<u8>, int)>) -> Option<(Seq<u8>, int)> {
-    match r { Some(x) => Some((a + x.0, x.1)), None => None }
-}
-
-/// 7.3.8.2: the value of /Length, direct or (C11) through a reference to an integer object
-pub open spec fn stream_length<R: Resolve>(r: &R, m: Map<Seq<u8>, Val>) -> Option<int> {
-    if !m.dom().contains(K_LENGTH()) { None } else {
-        match m[K_LENGTH()] {
-            Val::Int(n) => if n >= 0 { Some(n) } else { None },
-            Val::Ref(id, gen) => if 0 <= id <= u64::MAX && 0 <= gen <= u64::MAX {
-                    match r.resolve_spec(PlainRef { id: id as u64, gen: gen as u64 }, ParseFlags::INTEGER, 1) {
-                        Ok(Primitive::Integer(n)) => if n >= 0 { Some(n as int) } else { None },
-                        _ => None } } else { None },
-            _ => None,
-        }
-    }
-}
-/// 7.3.8.1: keyword `stream`, LF or CRLF, exactly /Length bytes, keyword `endstream`; q = just after the dictionary's `>>`
-#[verifier::opaque]
-pub open spec fn stream_at<R: Resolve>(r: &R, e: Env, m: Map<Seq<u8>, Val>, q: int) -> Option<(Val, int)> {
-    match e.ctx { None => None, Some(c) =>       // "All streams shall be indirect objects": the id comes from the context
-    match stream_kw_pos(e.buf, q) { None => None, Some(k) =>
-    match stream_data_start(e.buf, k) { None => None, Some(d) =>
-    match stream_length(r, m) { None => None, Some(n) =>
-        if d + n >= e.buf.len() { None } else {
-        match tok(e.buf, d + n) { None => None, Some(t) =>
-            if e.buf.subrange(t.0, t.1) == K_ENDSTREAM() { Some((Val::Stream(m, c.id, e.base + d, e.base + d + n), t.1)) } else { None } } } } } } }
-}
-
-/// a stream needs the context of an indirect object, and its value is a stream
-pub broadcast proof fn b_stream_kind<R: Resolve>(r: &R, e: Env, m: Map<Seq<u8>, Val>, q: int)
-    ensures match #[trigger] stream_at(r, e, m, q) { Some(x) => x.0 is Stream && e.ctx is Some, None => true }
-{ reveal(stream_at); }
-
-/// the object at p (after white-space and comments), nesting budget d: Some((value, position just past its last token));
-/// None = not an object in the sense of 7.3 / outside the implementation limits (nothing demanded)
-#[verifier::opaque]
-pub open spec fn obj_at<R: Resolve>(r: &R, e: Env, p: int, d: nat) -> Option<(Val, int)>
-    decreases d, e.buf.len() - p, 0nat
-{
-    match tok(e.buf, p) { None => None, Some(t1) => {
-        let w = e.buf.subrange(t1.0, t1.1);
-        if !(p < t1.1 <= e.buf.len()) { None }
-        else if w == K_LTLT() {                                   // 7.3.7 dictionary, 7.3.8 stream
-            if d == 0 { None } else {
-            match dict_at(r, e, t1.1, (d - 1) as nat, Map::<Seq<u8>, Val>::empty()) { None => None, Some(x) =>
-                if tok(e.buf, x.1) matches Some(t2) && e.buf.subrange(t2.0, t2.1) == K_STREAM() { stream_at(r, e, x.0, x.1) }
-                else { Some((Val::Dict(x.0), x.1)) } } } }
-        else if is_int_lit(w) {                                   // 7.3.3 integer, 7.3.10 indirect reference `n g R`
-            match ref_tail(e.buf, t1.1) {
-                Some(t3) => match (<u64 as FromDec>::dec(w), <u64 as FromDec>::dec(e.buf.subrange(t3.0, t3.1))) {
-                    (Some(id), Some(gen)) => Some((Val::Ref(id as int, gen as int), t3.2)), _ => None },
-                None => match int_tok_val(w) { Some(v) => Some((v, t1.1)), None => None },
-            } }
-        else if is_real_iso(w) { Some((Val::Real(w), t1.1)) }     // 7.3.3 real
-        else if w.len() > 0 && w[0] == 47 {                        // 7.3.5 name
-            match name_dec(w.subrange(1, w.len() as int)) {
-                Some(n) => if utf8_ok(n) { Some((Val::Name(n), t1.1)) } else { None }, None => None } }
-        else if w == K_LBRACK() {                                 // 7.3.6 array
-            if d == 0 { None } else {
-            match arr_at(r, e, t1.1, (d - 1) as nat) { None => None, Some(x) => Some((Val::Arr(x.0), x.1)) } } }
-        else if w == K_LPAREN() {                                 // 7.3.4.2 literal string
-            match lit_str(e.buf.subrange(t1.1, e.buf.len() as int), 0, 0) { None => None, Some(x) =>
-                match ctx_decrypt(e.ctx, x.0) { None => None, Some(s) => Some((Val::Str(s), t1.1 + x.1)) } } }
-        else if w == K_LT() {                                     // 7.3.4.3 hexadecimal string
-            match hex_str(e.buf.subrange(t1.1, e.buf.len() as int), 0) { None => None, Some(x) =>
-                match ctx_decrypt(e.ctx, x.0) { None => None, Some(s) => Some((Val::Str(s), t1.1 + x.1)) } } }
-        else if w == K_TRUE() { Some((Val::Bool(true), t1.1)) }   // 7.3.2
-        else if w == K_FALSE() { Some((Val::Bool(false), t1.1)) }
-        else if w == K_NULL() { Some((Val::Null, t1.1)) }         // 7.3.9
-        else { None }
-    } }
-}
-pub proof fn lemma_obj_unfold<R: Resolve>(r: &R, e: Env, p: int, d: nat)
-    ensures obj_at(r, e, p, d) == obj_def(r, e, p, d)
-{ reveal_with_fuel(obj_at, 1); reveal_with_fuel(arr_at, 1); reveal_with_fuel(dict_at, 1); }
-pub open spec fn obj_def<R: Resolve>(r: &R, e: Env, p: int, d: nat) -> Option<(Val, int)>
-
-{
-    match tok(e.buf, p) { None => None, Some(t1) => {
-        let w = e.buf.subrange(t1.0, t1.1);
-        if !(p < t1.1 <= e.buf.len()) { None }
-        else if w == K_LTLT() {                                   // 7.3.7 dictionary, 7.3.8 stream
-            if d == 0 { None } else {
-            match dict_at(r, e, t1.1, (d - 1) as nat, Map::<Seq<u8>, Val>::empty()) { None => None, Some(x) =>
-                if tok(e.buf, x.1) matches Some(t2) && e.buf.subrange(t2.0, t2.1) == K_STREAM() { stream_at(r, e, x.0, x.1) }
-                else { Some((Val::Dict(x.0), x.1)) } } } }
-        else if is_int_lit(w) {                                   // 7.3.3 integer, 7.3.10 indirect reference `n g R`
-            match ref_tail(e.buf, t1.1) {
-                Some(t3) => match (<u64 as FromDec>::dec(w), <u64 as FromDec>::dec(e.buf.subrange(t3.0, t3.1))) {
-                    (Some(id), Some(gen)) => Some((Val::Ref(id as int, gen as int), t3.2)), _ => None },
-                None => match int_tok_val(w) { Some(v) => Some((v, t1.1)), None => None },
-            } }
-        else if is_real_iso(w) { Some((Val::Real(w), t1.1)) }     // 7.3.3 real
-        else if w.len() > 0 && w[0] == 47 {                        // 7.3.5 name
-            match name_dec(w.subrange(1, w.len() as int)) {
-                Some(n) => if utf8_ok(n) { Some((Val::Name(n), t1.1)) } else { None }, None => None } }
-        else if w == K_LBRACK() {                                 // 7.3.6 array
-            if d == 0 { None } else {
-            match arr_at(r, e, t1.1, (d - 1) as nat) { None => None, Some(x) => Some((Val::Arr(x.0), x.1)) } } }
-        else if w == K_LPAREN() {                                 // 7.3.4.2 literal string
-            match lit_str(e.buf.subrange(t1.1, e.buf.len() as int), 0, 0) { None => None, Some(x) =>
-                match ctx_decrypt(e.ctx, x.0) { None => None, Some(s) => Some((Val::Str(s), t1.1 + x.1)) } } }
-        else if w == K_LT() {                                     // 7.3.4.3 hexadecimal string
-            match hex_str(e.buf.subrange(t1.1, e.buf.len() as int), 0) { None => None, Some(x) =>
-                match ctx_decrypt(e.ctx, x.0) { None => None, Some(s) => Some((Val::Str(s), t1.1 + x.1)) } } }
-        else if w == K_TRUE() { Some((Val::Bool(true), t1.1)) }   // 7.3.2
-        else if w == K_FALSE() { Some((Val::Bool(false), t1.1)) }
-        else if w == K_NULL() { Some((Val::Null, t1.1)) }         // 7.3.9
-        else { None }
-    } }
-}
-/// 7.3.10: after an integer at the current position: a second integer and the keyword R (result: second token, end of R)
-pub open spec fn ref_tail(buf: Seq<u8>, p: int) -> Option<(int, int, int)> {
-    match tok(buf, p) { None => None, Some(t2) =>
-        if !is_int_lit(buf.subrange(t2.0, t2.1)) { None } else {
-        match tok(buf, t2.1) { None => None, Some(t3) =>
-            if buf.subrange(t3.0, t3.1) == K_R() { Some((t2.0, t2.1, t3.1)) } else { None } } } }
-}
-/// 7.3.6: the elements of an array up to `]`; p = just after `[` or after an element
-#[verifier::opaque]
-pub open spec fn arr_at<R: Resolve>(r: &R, e: Env, p: int, d: nat) -> Option<(Seq<Val>, int)>
-    decreases d, e.buf.len() - p, 1nat
-{
-    match tok(e.buf, p) { None => None, Some(t1) =>
-        if e.buf.subrange(t1.0, t1.1) == K_RBRACK() { Some((Seq::<Val>::empty(), t1.1)) } else {
-        match obj_at(r, e, p, d) { None => None, Some(x) =>
-            if !(p < x.1 <= e.buf.len()) { None } else {
-            arr_prepend(seq![x.0], arr_at(r, e, x.1, d)) } } } }
-}
-pub proof fn lemma_arr_unfold<R: Resolve>(r: &R, e: Env, p: int, d: nat)
-    ensures arr_at(r, e, p, d) == arr_def(r, e, p, d)
-{ reveal_with_fuel(obj_at, 1); reveal_with_fuel(arr_at, 1); reveal_with_fuel(dict_at, 1); }
-pub open spec fn arr_def<R: Resolve>(r: &R, e: Env, p: int, d: nat) -> Option<(Seq<Val>, int)>
-
-{
-    match tok(e.buf, p) { None => None, Some(t1) =>
-        if e.buf.subrange(t1.0, t1.1) == K_RBRACK() { Some((Seq::<Val>::empty(), t1.1)) } else {
-        match obj_at(r, e, p, d) { None => None, Some(x) =>
-            if !(p < x.1 <= e.buf.len()) { None } else {
-            arr_prepend(seq![x.0], arr_at(r, e, x.1, d)) } } } }
-}
-/// 7.3.7: key/value pairs up to `>>`; a later duplicate key replaces the earlier value; acc = the entries read so far
-#[verifier::opaque]
-pub open spec fn dict_at<R: Resolve>(r: &R, e: Env, p: int, d: nat, acc: Map<Seq<u8>, Val>) -> Option<(Map<Seq<u8>, Val>, int)>
-    decreases d, e.buf.len() - p, 1nat
-{
-    match tok(e.buf, p) { None => None, Some(t1) => {
-        let w = e.buf.subrange(t1.0, t1.1);
-        if !(p < t1.1 <= e.buf.len()) { None }
-        else if w.len() > 0 && w[0] == 47 {
-            match name_dec(w.subrange(1, w.len() as int)) { None => None, Some(k) =>   // the key is a name (7.3.7): `#xx` decoded (7.3.5)
-                if !utf8_ok(k) { None } else {
-                match obj_at(r, e, t1.1, d) { None => None, Some(x) =>
-                    if !(t1.1 < x.1 <= e.buf.len()) { None } else { dict_at(r, e, x.1, d, acc.insert(k, x.0)) } } } } }
-        else if w == K_GTGT() { Some((acc, t1.1)) }
-        else { None }
-    } }
-}
-pub proof fn lemma_dict_unfold<R: Resolve>(r: &R, e: Env, p: int, d: nat, acc: Map<Seq<u8>, Val>)
-    ensures dict_at(r, e, p, d, acc) == dict_def(r, e, p, d, acc)
-{ reveal_with_fuel(obj_at, 1); reveal_with_fuel(arr_at, 1); reveal_with_fuel(dict_at, 1); }
-pub open spec fn dict_def<R: Resolve>(r: &R, e: Env, p: int, d: nat, acc: Map<Seq<u8>, Val>) -> Option<(Map<Seq<u8>, Val>, int)>
-
-{
-    match tok(e.buf, p) { None => None, Some(t1) => {
-        let w = e.buf.subrange(t1.0, t1.1);
-        if !(p < t1.1 <= e.buf.len()) { None }
-        else if w.len() > 0 && w[0] == 47 {
-            match name_dec(w.subrange(1, w.len() as int)) { None => None, Some(k) =>   // the key is a name (7.3.7): `#xx` decoded (7.3.5)
-                if !utf8_ok(k) { None } else {
-                match obj_at(r, e, t1.1, d) { None => None, Some(x) =>
-                    if !(t1.1 < x.1 <= e.buf.len()) { None } else { dict_at(r, e, x.1, d, acc.insert(k, x.0)) } } } } }
-        else if w == K_GTGT() { Some((acc, t1.1)) }
-        else { None }
-    } }
-}
-
-/// the object at a token that starts with a SOLIDUS is the name it spells, whatever the context and the nesting budget
-pub proof fn lemma_obj_name<R: Resolve>(r: &R, e: Env, p: int, d: nat)
-    requires 0 <= p <= e.buf.len()
-    ensures match tok(e.buf, p) { None => true, Some(t) => { let w = e.buf.subrange(t.0, t.1);
-        (w.len() > 0 && w[0] == 47) ==> obj_at(r, e, p, d) == (match name_dec(w.subrange(1, w.len() as int)) {
-            Some(n) => if utf8_ok(n) { Some((Val::Name(n), t.1)) } else { None }, None => None }) } }
-{
-    broadcast use {b_tok, b_real_first};
-    lemma_obj_unfold(r, e, p, d);
-    match tok(e.buf, p) { None => {}, Some(t) => {
-        let w = e.buf.subrange(t.0, t.1);
-        if w.len() > 0 && w[0] == 47 {
-            reveal(K_LTLT);
-            assert(K_LTLT()[0] == 60);
-            lemma_real_iso_is_lit(w);
-            assert(sign_len(w) == 0);
-            if is_int_lit(w) { assert(digit(w.subrange(0, w.len() as int)[0])); }
-        }
-    } }
-}
-pub proof fn lemma_name_allowed(n: Seq<u8>)
-    ensures allowed(ParseFlags::NAME, Val::Name(n))
-{ assert(16u16 & 16 != 0) by (bit_vector); }
-
-/// the bit(s) of ParseFlags that the parser consults for a value of this kind (as found in the code: a stream is admitted by
-/// DICT, the STREAM bit is only consulted by Storage::resolve_ref)
-pub open spec fn kind_bits(v: Val) -> u16 {
-    match v {
-        Val::Null => 256, Val::Bool(_) => 128, Val::Int(_) => 1,
-        // the flags classify by the syntactic kind of the token: an integer token is admitted by INTEGER whatever its magnitude
-        // (as `5` was never admitted by NUMBER alone), a token with a decimal point by NUMBER
-        Val::Real(w) => if is_int_lit(w) { 1 } else { 8 },
-        Val::Str(_) => 64, Val::Name(_) => 16,
-        Val::Arr(_) => 32, Val::Dict(_) => 4, Val::Ref(_, _) => 512, Val::Stream(_, _, _, _) => 4,
-    }
-}
-pub open spec fn allowed(flags: ParseFlags, v: Val) -> bool { flags.bits & kind_bits(v) != 0 }
-pub proof fn lemma_any_allows(v: Val)
-    ensures allowed(ParseFlags::ANY, v)
-{
-    assert(1023u16 & 256 != 0 && 1023u16 & 128 != 0 && 1023u16 & 1 != 0 && 1023u16 & 8 != 0 && 1023u16 & 64 != 0 && 1023u16 & 16 != 0
-        && 1023u16 & 32 != 0 && 1023u16 & 4 != 0 && 1023u16 & 512 != 0) by (bit_vector);
-}
-
-/// syntactic class of the object at p by its first token; only used to report `r == obj_at(..)` arm by arm
-pub open spec fn obj_class(buf: Seq<u8>, p: int) -> int {
-    match tok(buf, p) { None => 0, Some(t) => { let w = buf.subrange(t.0, t.1);
-        if w == K_LTLT() { 1 } else if is_int_lit(w) { 2 } else if is_real_iso(w) { 3 } else if w.len() > 0 && w[0] == 47 { 4 }
-        else if w == K_LBRACK() { 5 } else if w == K_LPAREN() { 6 } else if w == K_LT() { 7 } else { 8 } } }
-}
+//@@ INCLUDE parser_obj/spec/r10_objects.rs
 /// the value demanded of a parse: the denoted value and the position just past it if the kind is allowed, else PrimitiveNotAllowed
 pub open spec fn parse_post(x: Option<(Val, int)>, flags: ParseFlags, res: Result<Primitive>, fpos: int) -> bool {
     match x { None => true, Some(y) =>
         if allowed(flags, y.0) { res matches Ok(p) && rep(p, y.0) && fpos == y.1 } else { res matches Err(PdfError::PrimitiveNotAllowed) } }
 }
-/// parse_stream_with_lexer: `<< .. >>` (strings inside are not decrypted: the dictionary is read without a context),
-/// keyword stream, data, endstream
-pub open spec fn stream_obj_at<R: Resolve>(r: &R, buf: Seq<u8>, base: int, id: PlainRef, p: int) -> Option<(Val, int)> {
-    match tok(buf, p) { None => None, Some(t1) =>
-        if buf.subrange(t1.0, t1.1) != K_LTLT() { None } else {
-        match dict_at(r, Env { buf, base, ctx: None }, t1.1, 20, Map::<Seq<u8>, Val>::empty()) { None => None, Some(x) =>
-            if tok(buf, x.1) matches Some(t2) && buf.subrange(t2.0, t2.1) == K_STREAM() {
-                stream_at(r, Env { buf, base, ctx: Some(CtxV { dec: None, id }) }, x.0, x.1) } else { None } } } }
-}
-pub open spec fn opt_deref(d: Option<&Decoder>) -> Option<Decoder> { match d { Some(x) => Some(*x), None => None } }
-/// 7.3.10 indirect object: `n g obj <object> endobj`; result: (id, value, end of the value, token after the value)
-pub open spec fn indirect_at<R: Resolve>(r: &R, buf: Seq<u8>, base: int, dec: Option<Decoder>, p: int) -> Option<(PlainRef, Val, int, Option<(int, int)>)> {
-    match tok(buf, p) { None => None, Some(t1) =>
-    match <u64 as FromDec>::dec(buf.subrange(t1.0, t1.1)) { None => None, Some(id) =>
-    match tok(buf, t1.1) { None => None, Some(t2) =>
-    match <u64 as FromDec>::dec(buf.subrange(t2.0, t2.1)) { None => None, Some(gen) =>
-    match tok(buf, t2.1) { None => None, Some(t3) =>
-        if buf.subrange(t3.0, t3.1) != K_OBJ() { None } else {
-        let pr = PlainRef { id, gen };
-        match obj_at(r, Env { buf, base, ctx: Some(CtxV { dec, id: pr }) }, t3.1, 20) { None => None, Some(x) =>
-            Some((pr, x.0, x.1, tok(buf, x.1))) } } } } } } }
-}
-pub open spec fn is_endobj(buf: Seq<u8>, t: Option<(int, int)>) -> bool {
-    t matches Some(t4) && buf.subrange(t4.0, t4.1) == K_ENDOBJ()
-}
+//@@ INCLUDE parser_obj/spec/r11_indirect.rs
 
 pub open spec fn env_of(lexer: &Lexer, ctx: Option<&Context>) -> Env {
     Env { buf: lexer.buf@, base: lexer.file_offset as int, ctx: ctxv(ctx) }
